@@ -601,3 +601,195 @@ def rw_merge_guarded_twin(toks, counts):
     # (nothing to merge is not an error)
     _count(counts, "R17", n)
     return toks
+
+
+READ_HEAP_CELL_HASHES = {"read_heap_cell": "8d2b2343821397f8", "read_heap_cell_pat": "d00c20e7c9da8482",
+                         "read_heap_cell_pat_expander": "2e5a41d68b2e4b15", "read_heap_cell_pat_body": "5aaa2a986334496e"}
+
+
+def rw_expand_read_heap_cell(toks, counts, macro_file, ctx=None):
+    """R5d: expansion of `read_heap_cell!(CELL, (TAGS[, BIND]) [if G] => { B } ... )` as the four macro_rules
+    of src/macros.rs define it (their token text is hashed and compared on every run):
+
+        { let cell_id_N = CELL;
+          match cell_id_N.get_tag() { TAGS [if G] => { let BIND = <payload of cell_id_N for the first tag>; B } ... } }
+
+    payload: Atom -> cell_as_atom_cell!(c).get_name_and_arity(); Cons -> cell_as_untyped_arena_ptr!(c);
+    F64Offset -> cell_as_f64_offset!(c); CodeIndexOffset -> cell_as_code_index_offset!(c);
+    Fixnum/CutPoint -> Fixnum::from_bytes(c.into_bytes()); every other tag -> c.get_value() as usize."""
+    import hashlib
+    from rustlex import find_macro
+    src = ctx["macro_src"](macro_file)
+    for name, want in READ_HEAP_CELL_HASHES.items():
+        m = find_macro(src, name)
+        if m is None:
+            raise LostAnchor("macro_rules! %s not found" % name)
+        t = " ".join(x.text for x in src[m.body_open:m.body_close + 1] if is_sig(x))
+        if hashlib.sha256(t.encode()).hexdigest()[:16] != want:
+            raise LostAnchor("macro_rules! %s changed (expansion rule R5d no longer matches it)" % name)
+    n = 0
+    while True:
+        si = sig_idx(toks)
+        hit = None
+        for a in range(len(si) - 2):
+            if toks[si[a]].kind == "id" and toks[si[a]].text == "read_heap_cell" and toks[si[a + 1]].text == "!":
+                o = si[a + 2]
+                c = match_close(toks, o)
+                hit = (si[a], o, c)
+                break
+        if not hit:
+            break
+        start, o, c = hit
+        n += 1
+        # first argument: up to the first top-level comma
+        d = 0
+        k = o + 1
+        while k < c:
+            tk = toks[k]
+            if tk.kind == "p":
+                if tk.text in OPEN:
+                    d += 1
+                elif tk.text in ")]}":
+                    d -= 1
+                elif tk.text == "," and d == 0:
+                    break
+            k += 1
+        cell_expr = text(toks[o + 1:k]).strip()
+        var = "cell_id_%d" % n
+        arms_out = []
+        i = next_sig(toks, k + 1)
+        while i < c:
+            # pattern
+            if toks[i].text == "_":
+                pat_tags, bind = None, None
+                j = next_sig(toks, i + 1)
+            elif toks[i].text == "(":
+                pc = match_close(toks, i)
+                inner = toks[i + 1:pc]
+                # split tags / binding at top-level comma
+                d = 0
+                cut = None
+                for x, tk in enumerate(inner):
+                    if tk.kind == "p":
+                        if tk.text in OPEN:
+                            d += 1
+                        elif tk.text in ")]}":
+                            d -= 1
+                        elif tk.text == "," and d == 0:
+                            cut = x; break
+                pat_tags = text(inner[:cut] if cut is not None else inner).strip()
+                bind = text(inner[cut + 1:]).strip() if cut is not None else None
+                j = next_sig(toks, pc + 1)
+            else:
+                raise LostAnchor("read_heap_cell!: unexpected arm start `%s`" % toks[i].text)
+            guard = None
+            if toks[j].text == "if":
+                g0 = j + 1
+                d = 0
+                while not (d == 0 and toks[j].text == "=" and toks[j + 1].text == ">"):
+                    tk = toks[j]
+                    if tk.kind == "p":
+                        if tk.text in OPEN:
+                            d += 1
+                        elif tk.text in ")]}":
+                            d -= 1
+                    j += 1
+                guard = text(toks[g0:j]).strip()
+            if not (toks[j].text == "=" and toks[j + 1].text == ">"):
+                raise LostAnchor("read_heap_cell!: `=>` expected")
+            b = next_sig(toks, j + 2)
+            if toks[b].text != "{":
+                raise LostAnchor("read_heap_cell!: arm body must be a block")
+            be = match_close(toks, b)
+            body = text(toks[b + 1:be])
+            if pat_tags is None:
+                arms_out.append("_ %s=> {%s}" % (("if %s " % guard) if guard else "", body))
+            else:
+                first = re.sub(r"\s+", "", pat_tags).split("|")[0].split("::")[-1]
+                if bind is None:
+                    let = ""
+                elif first == "Atom":
+                    let = "let %s = cell_as_atom_cell!(%s).get_name_and_arity();" % (bind, var)
+                elif first == "Cons":
+                    let = "let %s = cell_as_untyped_arena_ptr!(%s);" % (bind, var)
+                elif first == "F64Offset":
+                    let = "let %s = cell_as_f64_offset!(%s);" % (bind, var)
+                elif first == "CodeIndexOffset":
+                    let = "let %s = cell_as_code_index_offset!(%s);" % (bind, var)
+                elif first in ("Fixnum", "CutPoint"):
+                    let = "let %s = Fixnum::from_bytes(%s.into_bytes());" % (bind, var)
+                else:
+                    let = "let %s = %s.get_value() as usize;" % (bind, var)
+                arms_out.append("%s %s=> { %s %s}" % (pat_tags, ("if %s " % guard) if guard else "", let, body))
+            i = next_sig(toks, be + 1)
+            if i < c and toks[i].text == ",":
+                i = next_sig(toks, i + 1)
+        new = "{ let %s = %s;\n match %s.get_tag() {\n%s\n} }" % (var, cell_expr, var, "\n".join(arms_out))
+        toks = toks[:start] + relex(new) + toks[c + 1:]
+    if n == 0:
+        raise LostAnchor("no read_heap_cell! invocation found")
+    _count(counts, "R5", n)
+    return toks
+rw_expand_read_heap_cell.needs_ctx = True
+
+
+def rw_index_to_method(toks, counts, receiver, method="at"):
+    """R6c: `RECEIVER[E]` (Index::index on a shimmed container) -> `RECEIVER.METHOD(E)`; RECEIVER is a dotted
+    path such as `self.heap`."""
+    want = [t.text for t in lex(receiver) if is_sig(t)]
+    n = 0
+    while True:
+        si = sig_idx(toks)
+        hit = None
+        for a in range(len(si) - len(want)):
+            if [toks[si[a + k]].text for k in range(len(want))] == want and toks[si[a + len(want)]].text == "[":
+                if a > 0 and toks[si[a - 1]].text == ".":
+                    continue
+                o = si[a + len(want)]
+                hit = (o, match_close(toks, o)); break
+        if not hit:
+            break
+        o, c = hit
+        toks = toks[:o] + relex(".%s(" % method) + toks[o + 1:c] + relex(")") + toks[c + 1:]
+        n += 1
+    _count(counts, "R6", n)
+    return toks
+
+
+def rw_guard_into_wild(toks, counts):
+    """R17c: in a match whose LAST two arms are `P if G => B1` and `_ => B2`, the guard moves into the body:
+            P => { if G { B1 } else { B2 } }   _ => B2
+    (when G is false the only arm left to try is the wildcard, so B2 runs in both forms). Works around a
+    Verus limitation: with a guard on an arm that binds by shared reference the final value of a `&mut`
+    parameter is not resolved (minimal repro in DESIGN.md)."""
+    n = 0
+    done = set()
+    while True:
+        hit = None
+        for bo, bc in _match_bodies(toks):
+            arms = _arms(toks, bo, bc)
+            if len(arms) < 2:
+                continue
+            a1, a2 = arms[-2], arms[-1]
+            if a1["guard"] is None or a2["guard"] is not None:
+                continue
+            p2 = "".join(t.text for t in toks[a2["pat"][0]:a2["pat"][1]] if is_sig(t))
+            if p2 != "_":
+                continue
+            g = text(toks[a1["guard"][0]:a1["guard"][1]]).strip()
+            b1 = text(toks[a1["body"][0]:a1["body"][1]]).strip()
+            b2 = text(toks[a2["body"][0]:a2["body"][1]]).strip()
+            if not b1.startswith("{"):
+                b1 = "{ " + b1 + " }"
+            if not b2.startswith("{"):
+                b2 = "{ " + b2 + " }"
+            new = "%s => { if %s %s else %s }\n" % (text(toks[a1["pat"][0]:a1["pat"][1]]).strip(), g, b1, b2)
+            hit = (a1["start"], a1["end"], new)
+            break
+        if not hit:
+            break
+        s, e, new = hit
+        toks = toks[:s] + relex(new) + toks[e:]
+        n += 1
+    _count(counts, "R17", n)
+    return toks
